@@ -159,18 +159,21 @@ CLAIMED.update({
         "Coq proof (partial, see Properties/C12.v) + string-level correspondence evaluated in Coq",
         "DESIGN.md 4/C12"),
     "C13": (
-        "8 Coq theorems (coq/Properties/C13.v), exact level on rationals: nearest within half a unit, on-grid values "
+        "10 Coq theorems (coq/Properties/C13.v). Exact level on rationals: nearest within half a unit, on-grid values "
         "unchanged, no drift under any number of re-wrappings, operations keep grid bounds, monotone, congruent; the old "
         "truncating formula refuted (finding F1). The binary64 evaluation (math.floor(x / P + 0.5) * P) is modelled with "
-        "Coq primitive floats and tied bit-for-bit (float.hex) for n = 0..6, not proved.",
-        "Trusted: Coq kernel, its vm_compute and primitive-float operations; model coq/Model/Precision.v; harness.",
+        "Coq primitive floats and tied bit-for-bit (float.hex) for n = 0..6; and, over the reals with Flocq's binary64 rounding, "
+        "proved to stay within half a grid unit of the requested value plus 8 * 2^-53 * (|x| + P) + 2^-1072 * (P + 1) for every input.",
+        "Trusted: Coq kernel, its vm_compute and primitive-float operations; model coq/Model/Precision.v; harness. The two binary64 "
+        "theorems rely on the standard library's real-number axioms (ClassicalDedekindReals.sig_not_dec, sig_forall_dec, "
+        "functional_extensionality_dep, Classical_Prop.classic) and model IEEE arithmetic by Flocq's round.",
         "Coq proof (exact arithmetic) + bit-exact float correspondence evaluated in Coq",
         "DESIGN.md 4/C13"),
     "C14": (
         "16 Coq theorems (coq/Properties/C14.v) on the exact (tick-aligned) tier: constructor validation, positions, "
         "iteration = positions 0..N-1 with N = ceil((end-start)/step), len() = N wherever closest_frame(end) lands, "
         "closest_frame nearest and inverse of the centre, range_to_segment tiling, __call__ positions and the align_last "
-        "flush condition. The float side and non-aligned values are tied on binary grids only (no tolerance tier built).",
+        "flush condition. Decimal (non-dyadic) parameters are tied by a tolerance tier of the correspondence (exact integers in 2^-130 s), not proved.",
         "Trusted: Coq kernel + vm_compute; model coq/Model/Window.v (exact quotients; DESIGN 2.4); harness.",
         "Coq proof (Z division lemmas, lia/nia) + exhaustive small-geometry correspondence",
         "DESIGN.md 4/C14"),
